@@ -147,14 +147,30 @@ def c2mBasicSize : Sc → Nat
 
 `mn` ≤ 0 ≤ `mx`: least and greatest enumerator value (`min_val` starts at 0, `max_val` at 0). -/
 
-/-- `check_decl_spec`, case `N_ENUM`: `enum_type->enum_basic_type` (c2mir.c:6996-7002) -/
+/-- `check_decl_spec`, case `N_ENUM`: `enum_type->enum_basic_type` (since repo commit 665ec29a) -/
 def c2mEnumBase (mn mx : Int) : Sc :=
+  if mx ≤ 2147483647 ∧ -2147483648 ≤ mn then (if mn < 0 then .int else .uint)
+  else if mx ≤ 4294967295 ∧ 0 ≤ mn then .uint
+  else if mx ≤ 18446744073709551615 ∧ 0 ≤ mn then .ulong
+  else if mx ≤ 9223372036854775807 ∧ -9223372036854775808 ≤ mn then .long
+  else if mn < 0 ∨ mx ≤ 9223372036854775807 then .llong
+  else .ullong
+
+/-- `check_decl_spec`, case `N_ENUM`: no "enum const expression is not represented by an int" error
+(`min_val < 0 && max_val > MIR_LLONG_MAX`, whichever enumerator comes last) -/
+def c2mEnumOk (mn mx : Int) : Bool := !(decide (mn < 0) && decide (mx > 9223372036854775807))
+
+/-- the rule before commit 665ec29a: the `long` test preceded the `unsigned long` test -/
+def c2mEnumBaseOld (mn mx : Int) : Sc :=
   if mx ≤ 2147483647 ∧ -2147483648 ≤ mn then (if mn < 0 then .int else .uint)
   else if mx ≤ 4294967295 ∧ 0 ≤ mn then .uint
   else if mx ≤ 9223372036854775807 ∧ -9223372036854775808 ≤ mn then .long
   else if mx ≤ 18446744073709551615 ∧ 0 ≤ mn then .ulong
   else if mn < 0 ∨ mx ≤ 9223372036854775807 then .llong
   else .ullong
+
+/-- … and the error test was `max_val >= MIR_LLONG_MAX` -/
+def c2mEnumOkOld (mn mx : Int) : Bool := !(decide (mn < 0) && decide (mx ≥ 9223372036854775807))
 
 /-- the platform compiler (GCC, "Structures, unions, enumerations, and bit-fields" + c-decl.c
 `finish_enum`): unsigned int if there is no negative enumerator and the values fit, int if they fit,
@@ -163,6 +179,10 @@ def gccEnumBase (mn mx : Int) : Sc :=
   if 0 ≤ mn then (if mx ≤ 4294967295 then .uint else .ulong)
   else if -2147483648 ≤ mn ∧ mx ≤ 2147483647 then .int
   else .long
+
+/-- GCC diagnoses ("enumeration values exceed range of largest integer", a warning that no option
+turns off; the value then wraps) exactly the ranges no 64-bit type can hold; `true` = no diagnostic -/
+def gccEnumOk (mn mx : Int) : Bool := !(decide (mn < 0) && decide (mx > 9223372036854775807))
 
 /-- `basic_type_align`: `MIR_LDOUBLE_ALIGN` is not defined for x86-64, so it is the size -/
 def c2mBasicAlign (s : Sc) : Nat := c2mBasicSize s
